@@ -107,7 +107,7 @@ package ice
 //@   ensures[C08,C13,C18] result0 != nil && result0 != emptyPostingsList
 //@   ensures[C13] result0.sb == d.sb && result0.except == except && result0.postingsOffset == 0 && result0.freqOffset == 0 && result0.locOffset == 0
 //@   ensures[C13] result0.docNum1Hit == 0 && result0.normBits1Hit == 0 && result0.chunkSize == 0
-//@   ensures[C13] result0.postings != nil ==> bset(result0.postings) == emptyset()
+//@   ensures[C08,C13,C18] result0.postings != nil ==> bset(result0.postings) == emptyset()
 //@   ensures[C13] rv != nil && rv != emptyPostingsList ==> result0 == rv
 //@
 //@ func (*PostingsList).init1Hit
@@ -163,6 +163,10 @@ package ice
 //@ func (*Segment).DocsMatchingTerms
 //@   loop 0 invariant[C18] dict == nil || dict.sb == s
 //@   loop 0 invariant[C18] rv != nil
+//@   // the cached dictionary is the dictionary of lastField (or there is none because lastField is unknown / nothing was looked up)
+//@   loop 0 invariant[C18] @cached_dict_is_for_last_field dict != nil ==> s.fieldsMap[lastField] > 0 && dict.fieldID == s.fieldsMap[lastField] - 1
+//@   // every lookup goes to the dictionary of the term's own field
+//@   at call:(*Dictionary).postingsList#0 lemma[C18] s.fieldsMap[thisField] > 0 && dict.sb == s && dict.fieldID == s.fieldsMap[thisField] - 1
 //@
 //@ // persistFooter appends the 44-byte footer: numDocs, storedIndexOffset, fieldsIndexOffset,
 //@ // docValueOffset (big-endian uint64), chunkMode, version 2, and the CRC-32 that continues
